@@ -28,7 +28,8 @@ from harness import pdfwriter as W
 LEVEL = "proof"
 RULE = ("operator programs following the content-stream grammar of ISO 32000-1 Figure 9 (q Q cm, colour operators, "
         "text state, BT..ET with positioning and showing operators, Do of form XObjects nested <= 3 with own "
-        "Matrix/Resources), dyadic operands, random width tables incl. code 32 and codes outside the table, a share of "
+        "Matrix/Resources; interleaved with the operators outside the property's list - general graphics state, path "
+        "construction / painting / clipping and sh at page level, marked content and BX/EX also inside text objects), dyadic operands, random width tables incl. code 32 and codes outside the table, a share of "
         "operators with missing / ill-typed operands, serialised and split into 1-4 streams at token boundaries; a second "
         "'wild' stream (excess operands, unknown operators, text operators outside BT, q/Q inside BT, unknown resources) "
         "is used for the model/implementation tie only.  Resources define colour spaces (aliases, ICCBased, CIE-based, "
@@ -56,6 +57,9 @@ ASSUMPTIONS = [
     "operands, balanced q/Q per stream/form, fonts/forms/colour spaces that exist, colour components in [0,1], "
     "forms inherit the caller's graphics state (a page whose Do reaches a form that shows text before any font was selected is outside the domain)",
     "graphicstate.ncolor None is read as 'initial colour'",
+    "operators outside the property's list: the text model admits them by Figure 9 placement (paths/painting/clipping/sh not "
+    "inside a text object) and operand count; the path-object sub-grammar (construction -> clipping -> painting) is not "
+    "enforced; inline images BI..ID..EI are covered at token level by C05_unlisted_frame only (not generated, not in the byte-level front end)",
     "cs/CS with a name that is neither a ColorSpace resource of the current content nor a device colour space is ignored "
     "(a family name that needs parameters, and Pattern, are outside the domain); a form that is already being painted "
     "is not painted again by pdfminer - the text model gives such a page no meaning (outside the domain)",
@@ -89,6 +93,18 @@ STATEMENT_STATUS: Dict[str, str] = {
     "C05_string_displacement_vertical": "proved: render_string_vertical = 9.4.4 (ty not scaled by Th)",
     "C05_font_scale": "proved: pdfminer's hscale/vscale (constants, Type 3 FontMatrix) are the scales of 9.6.5",
     "C05_glyph": "proved: LTChar.__init__ = glyph of the text model, horizontal and vertical writing",
+    "C05_glyph_bbox": "proved: for every matrix (negative scale, rotation, skew, singular) LTChar.bbox = bounding box of the "
+                      "four transformed corners of the text-space glyph box (contains them, every side touches one), the "
+                      "swaps never fire, size = its height / width >= 0",
+    "C05_glyph_bbox_axis": "proved: closed form for [a 0 0 d e f], any signs; size = |d*Tfs|",
+    "C05_glyph_bbox_quarter": "proved: closed form for [0 b c 0 e f]; size = |b*adv|",
+    "C05_unlisted_frame": "proved (unconditional): any keyword outside the 33 listed operators (paths, painting, clipping, "
+                          "marked content, BX/EX, sh, general graphics state, BI/ID/EI, unknown) shows no glyph and changes "
+                          "nothing of the interpreter/device state but takes its operands off the operand stack",
+    "C05_unlisted_noop": "proved: a neutral operator (ISO Tables 57, 59-61, 77, 320, 32) with at most its operands leaves the "
+                         "interpreter exactly as it was (arity from the regenerated do_* table)",
+    "C05_unlisted_spec": "proved: where the text model admits such an operator it changes nothing and shows nothing",
+    "C05_unlisted_admitted": "proved: at page level the text model admits each of them with <= its ISO operand count",
 }
 
 TOL = F(1, 2 ** 30)
@@ -1398,6 +1414,19 @@ def flush(ctx: C.Ctx, batch: list) -> None:
             ctx.branch("out:" + psp[1])
         for t in tags_for(case, 0, "", None, None)["illtyped_ops"]:
             ctx.branch("ill:" + t)
+        if im[0] == "ok":
+            # which kinds of glyph matrices the bbox comparison met (C05_glyph_bbox: every matrix)
+            for gl in im[1]:
+                a, b, c, d = gl["m"][:4]
+                if a * d - b * c == 0:
+                    kind = "singular"
+                elif b == 0 and c == 0:
+                    kind = "axis:" + ("+" if a > 0 else "-") + ("+" if d > 0 else "-")
+                elif a == 0 and d == 0:
+                    kind = "quarter-turn"
+                else:
+                    kind = "general"
+                ctx.branch("glyph-matrix:" + kind)
         # (0) the two spec implementations agree (Lean spec is the reference; the twin is the fallback oracle)
         twin_differs = False
         if lsp is not None:
